@@ -163,6 +163,8 @@ func (a *arith) rexp(e ast.Expr) string {
 			return "(.sub " + l + " " + r + ")"
 		case token.MUL:
 			return "(.mul " + l + " " + r + ")"
+		case token.QUO:
+			return "(.div " + l + " " + r + ")"
 		}
 	case *ast.CallExpr:
 		name := callName(x)
@@ -195,6 +197,10 @@ func (a *arith) rexp(e ast.Expr) string {
 				return unknown
 			}
 			return "(.pow " + ratTerm(base) + " " + ie + ")"
+		case name == "math.Ceil" && len(x.Args) == 1:
+			return "(.ceil " + a.rexp(x.Args[0]) + ")"
+		case name == "uint64" && len(x.Args) == 1:
+			return "(.u64 " + a.rexp(x.Args[0]) + ")"
 		case name == "time.Duration" && len(x.Args) == 1:
 			return "(.durOfNs " + a.rexp(x.Args[0]) + ")"
 		}
@@ -256,7 +262,9 @@ func (a *arith) cexp(e ast.Expr) string {
 func (a *arith) stmts(list []ast.Stmt) []string {
 	var out []string
 	for _, st := range list {
-		out = append(out, a.stmt(st))
+		if t := a.stmt(st); t != "" {
+			out = append(out, t)
+		}
 	}
 	return out
 }
@@ -312,6 +320,26 @@ func (a *arith) stmt(st ast.Stmt) string {
 	case *ast.ReturnStmt:
 		if len(x.Results) == 0 {
 			return ".ret"
+		}
+		if len(x.Results) == 1 {
+			if nospace(x.Results[0]) == "nil" {
+				return ".retNil"
+			}
+			return ".retErr"
+		}
+	case *ast.DeclStmt:
+		if gd, ok := x.Decl.(*ast.GenDecl); ok {
+			if gd.Tok == token.CONST {
+				return "" // constants are folded into the expressions that use them
+			}
+			if gd.Tok == token.VAR && len(gd.Specs) == 1 {
+				if vs, ok := gd.Specs[0].(*ast.ValueSpec); ok && len(vs.Names) == 1 && len(vs.Values) == 0 {
+					switch nospace(vs.Type) {
+					case "float64", "uint64":
+						return fmt.Sprintf(".setL %d (.lit (0 : Rat))", a.num(vs.Names[0].Name))
+					}
+				}
+			}
 		}
 	case *ast.IfStmt:
 		if x.Init != nil {
@@ -411,7 +439,7 @@ func (a *arith) forFunc(fd *ast.FuncDecl) {
 		switch nospace(p.Type) {
 		case "int":
 			k = "I"
-		case "float64", "time.Time", "time.Duration":
+		case "float64", "time.Time", "time.Duration", "uint64":
 			k = "R"
 		}
 		for _, nm := range p.Names {
@@ -498,4 +526,26 @@ func extractRateProg() {
 	} else {
 		s.Facts = append(s.Facts, fact{Name: "newBucket", Type: "List (Fld × RExp)", Value: "[]", JSON: nil, Miss: true})
 	}
+}
+
+// checkThreshold(total, free uint64, minSpaceRequired float64) error — parameters are numbered 0, 1, 2 and read like locals
+func extractDiskProg() {
+	s := newSection("DiskProg")
+	const file = "internal/pkg/controler/watchers/disk.go"
+	a := &arith{fields: map[string]string{}, consts: fileConsts(file)}
+	fd := fn(file, "checkThreshold")
+	if fd == nil || fd.Body == nil {
+		s.Facts = append(s.Facts, fact{Name: "checkThreshold", Type: "ABlock", Value: "(.cons (.opaque \"checkThreshold not found\") .nil)", JSON: nil, Miss: true})
+		return
+	}
+	a.forFunc(fd)
+	sig := []string{}
+	for _, p := range fd.Type.Params.List {
+		for range p.Names {
+			sig = append(sig, nospace(p.Type))
+		}
+	}
+	items := a.stmts(fd.Body.List)
+	s.raw("checkThreshold", "ABlock", block(items), map[string]any{"program": items, "names": a.order})
+	s.strs("checkThresholdParams", sig, true)
 }
